@@ -15,7 +15,11 @@ touching what the coroutine awaits (finding F30), so the two can differ ("stale 
 What is abstracted: UPDATE contents (one `send update` stands for the ≥ 1 UPDATE messages of one
 main-loop iteration; the rig keeps every batch below the 25-per-iteration limit), the periodic
 KEEPALIVE of the established session (M-Timer, C12), the hold timer (event `holdExpired`), time.
-Not modelled: `ProcessError` from the API processes, back-pressure on writes.
+API processes: event `apiDies` — from then on every write to the API process raises `ProcessError`;
+which writes exist is configuration (`changes`: neighbor-changes, i.e. up / down / connected;
+`forward`: received messages of every kind are handed to the API, parsed).  `api fsm` and the
+`send-*` / `negotiated` options are not modelled (the rig runs `api fsm` scripts against the oracles only).
+Not modelled: back-pressure on writes.
 -/
 namespace Exa.Session
 
@@ -50,6 +54,8 @@ structure Cfg where
   maxAttempts : Nat   -- exabgp.tcp.attempts (0 = unlimited)
   hold0 : Bool        -- negotiated hold time is 0
   graceful : Bool     -- graceful-restart configured and announced
+  changes : Bool := true   -- api neighbor-changes: up / down / connected go to the API process
+  forward : Bool := false  -- api receive { parsed; <every message kind>; }
 deriving DecidableEq, Repr
 
 /-- `peer.proto.connection`, always open while it is there. The history fields are ghost state. -/
@@ -94,6 +100,7 @@ inductive Event where
   | openwaitExpired | holdExpired | tick
   | teardown (code : Nat) | reestablish | stop
   | queueRefresh | announce
+  | apiDies                 -- the API process is gone: writing to it raises ProcessError from now on
 deriving DecidableEq, Repr
 
 structure State where
@@ -110,7 +117,8 @@ structure State where
   routesPending : Bool := false   -- `_main`: rib.outgoing.pending() / generator in flight
   eorPending : Bool := false      -- `_main`: send_eor
   kaSeen : Bool := false          -- `recv_timer.single` (hold time 0)
-  isUp : Bool := false            -- ghost: API `up` sent and no `down` since
+  isUp : Bool := false            -- ghost: API `up` sent and no `_close` since
+  dead : Bool := false            -- the API process is gone
 deriving DecidableEq, Repr
 
 def init (cfg : Cfg) (rib : Bool) : State := { cfg := cfg, ribNonEmpty := rib }
@@ -155,7 +163,8 @@ def setPc (p : Pc) (s : State) : R := ({ s with pc := p }, [])
 
 /-- `_close`, first part: `if self.fsm not in (IDLE, ACTIVE): processes.down(...)`. -/
 def apiDown (s : State) : R :=
-  if s.fsm = .idle ∨ s.fsm = .active then (s, []) else ({ s with isUp := false }, [.down])
+  if s.fsm = .idle ∨ s.fsm = .active then (s, [])
+  else ({ s with isUp := false }, if s.cfg.changes && !s.dead then [.down] else [])
 
 /-- `proto.close()` then `self.proto = None`. -/
 def closeConn (s : State) : R :=
@@ -232,8 +241,9 @@ def beginRun (s : State) : R :=
 /-- `_main` prologue. -/
 def enterMain (c : Nat) (s : State) : R :=
   if s.teardown.isSome then onNotify 6 3 s
-  else ({ s with routesPending := s.ribNonEmpty, eorPending := true, kaSeen := false, isUp := true,
-                 pc := .mainLoop c }, [.up])
+  else if s.cfg.changes && s.dead then onNotify 6 0 s   -- `processes.up` raises ProcessError
+  else ({ s with routesPending := s.ribNonEmpty, eorPending := true, kaSeen := false,
+                 isUp := s.cfg.changes, pc := .mainLoop c }, if s.cfg.changes then [.up] else [])
 
 /-- a write that may fail; `false`: it failed (the connection closed itself, `NetworkError`). -/
 abbrev W := R × Bool
@@ -305,8 +315,22 @@ def markConn (f : Conn → Conn) (s : State) : State :=
   | some c => { s with conn := some (f c) }
   | none => s
 
-/-- a message is handed to the coroutine by the read it is suspended in. -/
-def deliver (m : Msg) (s : State) : R :=
+/-- with `forward`, `read_message` hands what it read to the API process before anything else:
+    the reader's own errors (as a notification event) and every message that decodes; what is
+    raised earlier (unknown type, a body that does not decode) never gets there. -/
+def forwardRaises : Msg → Bool
+  | .bad .badMarker | .bad .badLength | .bad .tooLong | .bad .kaLen | .bad .rrLen | .bad .openShort => true
+  | .bad _ => false
+  | _ => true
+
+/-- `except ProcessError` of `_run` after `read_message` could not forward `m`: `_reset`, nothing written. -/
+def onProcessError (m : Msg) (s : State) : R :=
+  ((s, match m, s.conn with
+       | .notification, some c => [.gotNotification c.id]
+       | _, _ => []) : R) ⊳ onOther
+
+/-- a message is handed to the coroutine by the read it is suspended in (the API is alive, or not concerned). -/
+def deliverAlive (m : Msg) (s : State) : R :=
   match s.pc with
   | .awaitOpen c =>
     match m with
@@ -324,6 +348,10 @@ def deliver (m : Msg) (s : State) : R :=
     | _ => onNotify 5 2 s
   | .mainLoop _ => mainIter (some m) s
   | _ => (s, [])
+
+/-- a message is handed to the coroutine by the read it is suspended in. -/
+def deliver (m : Msg) (s : State) : R :=
+  if s.cfg.forward && s.dead && forwardRaises m then onProcessError m s else deliverAlive m s
 
 def awaited (s : State) : Option Nat :=
   match s.pc with
@@ -368,6 +396,11 @@ def adopt (s : State) : R :=
 /-- `Peer.handle_connection`. -/
 def handleConnection (s : State) : R :=
   if refuses s then ({ s with nextId := s.nextId + 1 }, [.reject s.nextId, .close s.nextId])
+  else if s.cfg.changes && s.dead then
+    -- `Protocol.accept` → `processes.connected` raises: what `peer.proto` was is closed already,
+    -- the new connection is not adopted (the exception goes to the listener), it is dropped
+    (if s.conn.isSome then closeP s else (s, []))
+    ⊳ fun (t : State) => ({ t with nextId := t.nextId + 1 }, [.reject t.nextId, .close t.nextId])
   else adopt s
 
 /-- the effect of one event before the coroutine looks at its input again. -/
@@ -377,8 +410,13 @@ def react (s : State) : Event → R
   | .connectOk =>
     if s.pc = .connecting then
       let id := s.nextId
-      let o : List Out := match s.conn with | some old => [.close old.id] | none => []
-      (({ s with conn := some { id := id }, nextId := id + 1 }, o) : R) ⊳ afterConnect
+      if s.cfg.changes && s.dead then
+        -- `processes.connected` raises in `Protocol.connect`: ProcessError → `_reset`; the
+        -- connection just made never became `peer.proto` and is dropped
+        onOther { s with nextId := id + 1 } ⊳ fun (t : State) => (t, [.close id])
+      else
+        let o : List Out := match s.conn with | some old => [.close old.id] | none => []
+        (({ s with conn := some { id := id }, nextId := id + 1 }, o) : R) ⊳ afterConnect
     else (s, [])
   | .connectFail =>
     if s.pc = .connecting then (if s.conn.isSome then closeP s else (s, [])) ⊳ onOther else (s, [])
@@ -412,6 +450,8 @@ def react (s : State) : Event → R
         drainMain (s.refreshQ + 1) s ⊳ fun (s : State) => match s.pc with
           | .mainLoop _ => onNotify 4 0 s
           | _ => (s, [])
+    -- the hold timer runs in OPENCONFIRM too (/repo 5dabac1)
+    | .awaitKa _ => if s.cfg.hold0 then (s, []) else onNotify 4 0 s
     | _ => (s, [])
   | .tick =>
     match s.pc with
@@ -424,6 +464,7 @@ def react (s : State) : Event → R
   | .reestablish => ({ s with teardown := some 3, restart := true }, [])
   | .stop => (if s.conn.isSome then closeP s else (s, [])) ⊳ stopP
   | .queueRefresh => ({ s with refreshQ := s.refreshQ + 1 }, [])
+  | .apiDies => ({ s with dead := true }, [])
   | .announce =>
     ({ s with ribNonEmpty := true,
               routesPending := (match s.pc with | .mainLoop _ => true | _ => s.routesPending) }, [])
